@@ -1,5 +1,68 @@
 import PegVerif.Props.C05Ast
-import PegVerif.Props.C01
-/- C05 — derivation-level statements (on top of the token-list theorems of C05Ast). -/
+import PegVerif.Props.C03
+/-
+  C05 — derivation-level statement: `AST()` of the published tokens is the derivation tree of the
+  entry rule without its empty nodes; the printers list it in pre-order with the exact substrings.
+-/
 namespace PegVerif
+
+variable {P : Program} {cfg : Cfg} {env : CEnv} {G : Grammar} {inp : List Sym}
+
+/-- **C05** (tree): for every run of a successful parse of rule `n` that consumed a non-empty
+    prefix, `AST()` is the node of `n` over the pruned forest of its body. -/
+theorem C05_ast_of_parse (hW : World P cfg env G inp) {n e cr p' forest evs o s'}
+    (hfind : P.find n = some cr) (hb : G.body n = some (.ipush e n))
+    (hev : Eval G cfg.rho inp (.name n) 0 (.ok p' forest) evs) (hne : p' ≠ 0)
+    (hrun : Exec P cfg inp cr 0 St.init Frame.empty (o, s')) :
+    ∃ f, forest = [.node ⟨n, 0, p'⟩ f] ∧
+      astOf (s'.tree.take s'.ti) = some (.node ⟨n, 0, p'⟩ (prune f)) := by
+  obtain ⟨f, hf⟩ := Eval_rule_forest hb hev
+  refine ⟨f, hf, ?_⟩
+  rw [(C03_tokens hW hfind hev hrun).1, hf]
+  have hwn := Eval_wellNested hev _ _ rfl
+  rw [hf] at hwn
+  simp only [WellNestedL, TokTree.tok] at hwn
+  have := C05_ast_root (root := .node ⟨n, 0, p'⟩ f) hwn.2.1 (by simpa [TokTree.tok] using Ne.symm hne)
+  simpa [postorderL, TokTree.tok, TokTree.kids] using this
+
+/-- **C05** (empty parse): if nothing was consumed every token is empty and `AST()` is nil; the
+    printers print nothing (no nil dereference). -/
+theorem C05_ast_of_empty_parse (hW : World P cfg env G inp) {n cr forest evs o s'}
+    (hfind : P.find n = some cr)
+    (hev : Eval G cfg.rho inp (.name n) 0 (.ok 0 forest) evs)
+    (hrun : Exec P cfg inp cr 0 St.init Frame.empty (o, s')) :
+    astOf (s'.tree.take s'.ti) = none ∧
+    ∀ quote pretty, sprintSyntaxTree quote pretty inp (s'.tree.take s'.ti) = some "" := by
+  rw [(C03_tokens hW hfind hev hrun).1]
+  have hwn := Eval_wellNested hev _ _ rfl
+  have hall : ∀ t ∈ postorderL forest, t.b = t.e := by
+    intro t ht
+    have := WellNestedL.within forest 0 0 hwn t ht
+    omega
+  exact ⟨C05_ast_none hall, fun q pr => C05_print_empty_parse q pr inp hall⟩
+
+/-- **C05** (printing): `SprintSyntaxTree` never panics after a successful parse and prints the
+    pre-order listing of the pruned tree, each line with the exact input substring. -/
+theorem C05_print_of_parse (hW : World P cfg env G inp) {n e cr p' forest evs o s'}
+    (hfind : P.find n = some cr) (hb : G.body n = some (.ipush e n))
+    (hev : Eval G cfg.rho inp (.name n) 0 (.ok p' forest) evs) (hne : p' ≠ 0)
+    (hrun : Exec P cfg inp cr 0 St.init Frame.empty (o, s')) (quote : List Sym → String) (pretty : Bool) :
+    ∃ f, forest = [.node ⟨n, 0, p'⟩ f] ∧
+      sprintSyntaxTree quote pretty inp (s'.tree.take s'.ti) =
+        some (String.join ((preorder 0 (pruneT (.node ⟨n, 0, p'⟩ f))).map (lineOf quote pretty inp))) := by
+  obtain ⟨f, hf⟩ := Eval_rule_forest hb hev
+  refine ⟨f, hf, ?_⟩
+  rw [(C03_tokens hW hfind hev hrun).1, hf]
+  have hwn := Eval_wellNested hev _ _ rfl
+  have hbd := Eval_bound hev (Nat.zero_le _) _ _ rfl
+  rw [hf] at hwn
+  simp only [WellNestedL, TokTree.tok] at hwn
+  have := C05_print (root := .node ⟨n, 0, p'⟩ f) quote pretty inp hwn.2.1
+    (by simpa [TokTree.tok] using Ne.symm hne) (by simpa [TokTree.tok] using hbd.2)
+  simpa [postorderL] using this
+
 end PegVerif
+
+#print axioms PegVerif.C05_ast_of_parse
+#print axioms PegVerif.C05_ast_of_empty_parse
+#print axioms PegVerif.C05_print_of_parse
